@@ -11,7 +11,7 @@ def classify(f):
 def run(ctx):
     ctx.assumptions += [
         "C06 is decided by: the naturality theorem (Props/C06.v: a structure-preserving embedding maps solutions of the generated programs to solutions, DSL/Natural.v) + C16_direct (the direct solver returns the solution the embedding needs) + C17 (the projector denotes 1 - R L^dagger under every operation); the identification of the implicit block algebra with a corner of a BlockAlg (unit = diag(1, P)) is NOT formalised: partial",
-        "SuperLU / MUMPS solves and the KPM expansion are compared numerically (1e-9*scale for the direct solver on instances with O(1) gaps; 100*atol for KPM)",
+        "SuperLU / MUMPS solves and the KPM expansion are compared numerically (1e-9*scale for the direct solver on instances with O(1) gaps; 3*atol for KPM)",
     ]
     ctx.proof("Props/C06.v")
     ctx.proof("Props/C16_direct.v")
